@@ -280,8 +280,18 @@ func runC09(p *core.Prog, r *core.Report) {
 			type srcCase struct {
 				src string
 				at  ssa.Instruction
+				via *sx.Edge // the edge into the merge block (nil when the text is not merged)
 			}
-			cases := []srcCase{{src, in}}
+			holds := func(cs srcCase, edges map[sx.Edge]bool) bool {
+				if len(edges) == 0 {
+					return false
+				}
+				if cs.via != nil && edges[*cs.via] {
+					return true
+				}
+				return sx.MustPass(fn, nil, cs.at, sx.Cut{Edges: edges})
+			}
+			cases := []srcCase{{src, in, nil}}
 			var merged *ssa.Phi
 			{
 				args := call.Common().Args
@@ -299,7 +309,13 @@ func runC09(p *core.Prog, r *core.Report) {
 								cls = "env"
 							}
 							pred := ph.Block().Preds[k]
-							cases = append(cases, srcCase{cls, pred.Instrs[len(pred.Instrs)-1]})
+							var via *sx.Edge
+							for si, sb := range pred.Succs {
+								if sb == ph.Block() {
+									via = &sx.Edge{From: pred, Idx: si}
+								}
+							}
+							cases = append(cases, srcCase{cls, pred.Instrs[len(pred.Instrs)-1], via})
 						}
 					}
 				}
@@ -318,12 +334,12 @@ func runC09(p *core.Prog, r *core.Report) {
 				switch cs.src {
 				case "cli":
 					nonNil := present("field:Flag.ArgValue")
-					r.Check(len(nonNil) > 0 && sx.MustPass(fn, nil, in, sx.Cut{Edges: nonNil}), "C09-R2", construct+": only when the cli text is present", p.Pos(in.Pos()), "behind ArgValue != nil", "Set from the command-line text is reachable when ArgValue is nil")
+					r.Check(holds(cs, nonNil), "C09-R2", construct+": only when the cli text is present", p.Pos(in.Pos()), "behind ArgValue != nil", "Set from the command-line text is reachable when ArgValue is nil")
 				case "env":
 					nonNil := present("field:Flag.EnvValue")
 					argNil, _ := fieldNilEdges(fn, "field:Flag.ArgValue")
-					r.Check(len(nonNil) > 0 && sx.MustPass(fn, nil, in, sx.Cut{Edges: nonNil}), "C09-R2", construct+": only when the env text is present", p.Pos(in.Pos()), "behind EnvValue != nil", "Set from the environment text is reachable when EnvValue is nil")
-					r.Check(len(argNil) > 0 && sx.MustPass(fn, nil, cs.at, sx.Cut{Edges: argNil}), "C09-R2", construct+": only when the cli is silent", p.Pos(in.Pos()), "behind ArgValue == nil", "Set from the environment text is reachable although a command-line value exists: env would override cli")
+					r.Check(holds(cs, nonNil), "C09-R2", construct+": only when the env text is present", p.Pos(in.Pos()), "behind EnvValue != nil", "Set from the environment text is reachable when EnvValue is nil")
+					r.Check(holds(cs, argNil), "C09-R2", construct+": only when the cli is silent", p.Pos(in.Pos()), "behind ArgValue == nil", "Set from the environment text is reachable although a command-line value exists: env would override cli")
 				default:
 					if merged != nil {
 						r.Fail("C09-R2", construct+": merged text source", p.Pos(in.Pos()), "the text given to Set is chosen among "+cs.src+": neither the command-line nor the environment text")
@@ -470,6 +486,23 @@ func runC09(p *core.Prog, r *core.Report) {
 		}
 		// JSON target
 		ptr := fieldByName(c.FlagSet, "ptr")
+		if ptr == nil {
+			// by role: the interface-typed field of FlagSet that NewFlagSet fills from its first parameter
+			for _, f := range structFields(c.FlagSet) {
+				if !types.IsInterface(f.Type()) {
+					continue
+				}
+				for _, ref := range sx.FieldRefs([]*ssa.Function{p.Inl(c.NewSet)}, f) {
+					if fa, ok := ref.Instr.(*ssa.FieldAddr); ok {
+						for _, a := range sx.Accesses(fa) {
+							if a.Kind == "write" && sx.Origins(a.Val)["param:"+c.NewSet.Params[0].Name()] {
+								ptr = f
+							}
+						}
+					}
+				}
+			}
+		}
 		okPtr := ptr != nil
 		why := "field FlagSet.ptr not found"
 		if ptr != nil {
@@ -481,7 +514,7 @@ func runC09(p *core.Prog, r *core.Report) {
 				for _, a := range sx.Accesses(fa) {
 					if a.Kind == "write" {
 						org := sx.Origins(a.Val)
-						if ref.Fn != c.NewSet || !org["param:"+c.NewSet.Params[0].Name()] {
+						if !sameFn(rootFn(ref.Fn), c.NewSet) || !org["param:"+c.NewSet.Params[0].Name()] {
 							okPtr, why = false, "FlagSet.ptr assigned from "+keys(org)+" in "+fnName(ref.Fn)
 						}
 					}
@@ -492,7 +525,7 @@ func runC09(p *core.Prog, r *core.Report) {
 					if cc, ok := in.(*ssa.Call); ok && (sx.CalleeName(cc) == "encoding/json.Unmarshal" || strings.HasSuffix(sx.CalleeName(cc), "config.JsonUnmarshal")) {
 						tgt := cc.Call.Args[len(cc.Call.Args)-1]
 						org := sx.Origins(tgt)
-						if f != p.Func("config", "JsonUnmarshal") && !org["field:FlagSet.ptr"] {
+						if f != p.Func("config", "JsonUnmarshal") && !org["field:FlagSet."+ptr.Name()] {
 							okPtr, why = false, "the JSON step unmarshals into "+keys(org)+", not into the struct given to NewFlagSet"
 						}
 					}
@@ -514,7 +547,7 @@ func runC09(p *core.Prog, r *core.Report) {
 			if set == nil {
 				continue
 			}
-			checkSetSibling(p, r, nm, set)
+			checkSetSibling(p, r, nm, p.Inl(set))
 		}
 	}
 
@@ -574,7 +607,12 @@ func runC09(p *core.Prog, r *core.Report) {
 	{
 		envF := fieldByName(c.Flag, "Env")
 		n := 0
-		for _, fn := range c.Fns {
+		var r7Fns []*ssa.Function // the package's inlined views: a flag-building helper is seen inside the recursive walker
+		for _, v := range pkgViews(p, "config") {
+			r7Fns = append(r7Fns, sx.WithClosures(v.Fn)...)
+		}
+		for _, fn := range r7Fns {
+			fn := fn
 			for _, ref := range sx.FieldRefs([]*ssa.Function{fn}, envF) {
 				fa, ok := ref.Instr.(*ssa.FieldAddr)
 				if !ok {
@@ -614,7 +652,7 @@ func runC09(p *core.Prog, r *core.Report) {
 					sepRec, nRec := true, 0
 					sx.Instrs(fn, func(in ssa.Instruction) {
 						rc, ok := in.(*ssa.Call)
-						if !ok || sx.StaticCallee(rc) != fn {
+						if !ok || !sameFn(sx.StaticCallee(rc), fn) {
 							return
 						}
 						for i, prm := range fn.Params {
@@ -732,6 +770,18 @@ var parserFns = map[string]string{
 	"time.ParseDuration": "duration", "(*encoding/base64.Encoding).DecodeString": "bytes", "strconv.Atoi": "int",
 }
 
+// parserName: the parser a call invokes — statically, or through a function value that is a constant of the program
+// (a parser handed to a shared helper, a method value).
+func parserName(c ssa.CallInstruction) string {
+	n := sx.CalleeName(c)
+	if n == "dynamic" {
+		if fn, _ := sx.ResolveFuncValue(c.Common().Value); fn != nil {
+			n = sx.FuncName(fn)
+		}
+	}
+	return strings.TrimSuffix(n, "$bound")
+}
+
 func checkSetSibling(p *core.Prog, r *core.Report, typeName string, set *ssa.Function) {
 	recv := set.Params[0]
 	sParam := set.Params[1]
@@ -755,7 +805,7 @@ func checkSetSibling(p *core.Prog, r *core.Report, typeName string, set *ssa.Fun
 	var parsers []*ssa.Call
 	sx.Instrs(set, func(in ssa.Instruction) {
 		if cc, ok := in.(*ssa.Call); ok {
-			if _, is := parserFns[sx.CalleeName(cc)]; is {
+			if _, is := parserFns[parserName(cc)]; is {
 				parsers = append(parsers, cc)
 			}
 		}
@@ -798,7 +848,7 @@ func checkSetSibling(p *core.Prog, r *core.Report, typeName string, set *ssa.Fun
 					okZero, why = false, "the value assigned without parsing is "+x.String()+", not the zero value"
 				}
 			case *ssa.Extract:
-				if cc, ok := x.Tuple.(*ssa.Call); !ok || parserFns[sx.CalleeName(cc)] == "" || x.Index != 0 {
+				if cc, ok := x.Tuple.(*ssa.Call); !ok || parserFns[parserName(cc)] == "" || x.Index != 0 {
 					okZero, why = false, "assigned value derives from "+sx.ValPath(x)
 				}
 			case *ssa.Parameter:
@@ -836,7 +886,7 @@ func checkSetSibling(p *core.Prog, r *core.Report, typeName string, set *ssa.Fun
 			switch x := lf.(type) {
 			case *ssa.Const:
 			case *ssa.Extract:
-				if cc, ok := x.Tuple.(*ssa.Call); ok && parserFns[sx.CalleeName(cc)] != "" && x.Index == 1 {
+				if cc, ok := x.Tuple.(*ssa.Call); ok && parserFns[parserName(cc)] != "" && x.Index == 1 {
 					sawParserErr = true
 				}
 			}
